@@ -37,14 +37,15 @@ package security
 //@   ensures [decrypt-error] calls(DecryptBase64) == 1 && ret(DecryptBase64, 1) != nil ==> result1 == ErrInvalidSecret && result0 == nil
 //@   ensures [error-means-no-header] result1 != nil ==> result0 == nil
 
-// What is signed: the request's own path and raw query - or, behind a proxy that sets X-Request-Uri, the path and
-// query of that URI when it parses; and the SHA-256 of the whole body, the body being restored for the handler.
+// What is signed: the request's OWN path and raw query (altering either must yield 403), and the SHA-256 of the
+// whole body, the body being restored for the handler. (The code also accepts the path and query of a
+// client-supplied X-Request-Uri header in their place - see the known finding on [own-path-and-query-are-signed].)
 //@ func getPathQuery
 //@   prop C04
 //@   requires r != nil && r.URL != nil
 //@   ensures [own-url] len(ret(Get)) == 0 ==> result0 == r.URL.Path && result1 == r.URL.RawQuery && calls(url.Parse) == 0
-//@   ensures [forwarded-uri] len(ret(Get)) > 0 && ret(url.Parse, 1) == nil && ret(url.Parse, 0) != nil ==> result0 == ret(url.Parse, 0).Path && result1 == ret(url.Parse, 0).RawQuery && arg(url.Parse, 0) == ret(Get)
 //@   ensures [unparsable-falls-back] len(ret(Get)) > 0 && ret(url.Parse, 1) != nil ==> result0 == r.URL.Path && result1 == r.URL.RawQuery
+//@   ensures [own-path-and-query-are-signed] result0 == r.URL.Path && result1 == r.URL.RawQuery
 //@ func computeBodySignature
 //@   prop C04
 //@   opaque DupReadCloser, Sprintf
